@@ -4,6 +4,7 @@ import (
 	"bytes"
 	"encoding/json"
 	"fmt"
+	"io"
 	"math/rand"
 	"reflect"
 	"runtime"
@@ -292,6 +293,31 @@ func checkPipeCase(res *Result, pc *pipeCase, alpha []absLine, rng *rand.Rand, f
 		src.keepLog = true
 		obs := runStream(src, opts, len(lines)+3)
 		judgePipe(res, pc, pc.Calls, lines, data, obs, src, tag+"/"+d.name, alphaSnapCmp)
+	}
+	// a pass-through writer that fills up: the call during which a Write fails says so (an error other
+	// than EOF), whatever else happens at that moment - a caller must not take the stream for conserved
+	nw := 0
+	for i := range pc.Calls {
+		nw += len(minus(pc.Calls[i].Fwd, pc.Calls[i].K1))
+	}
+	if nw > 0 {
+		failAt := rng.Intn(nw)
+		for _, withData := range []bool{false, true} {
+			src := newSource(data, nil, 0, nil, withData)
+			reached, err, pan := runStreamFailingWriter(src, opts, len(lines)+3, failAt)
+			if pan != "" {
+				res.violation(Finding{Property: "C03", Aspect: "panic", What: tag + ": panic with a failing pass-through writer: " + firstLine(pan), Case: pc, Input: data})
+				break
+			}
+			if reached && (err == nil || err == io.EOF) {
+				res.violation(Finding{Property: "C02", Aspect: "write-error", What: fmt.Sprintf("%s: the pass-through writer failed at its write number %d (EOF delivered with the last data: %v), but the call returned %v: the loss goes unreported", tag, failAt+1, withData, err),
+					Case: pc, Input: data, Expected: "an error other than EOF", Observed: fmt.Sprint(err)})
+				break
+			}
+			if reached {
+				res.count("writer_failures_reported", 1)
+			}
+		}
 	}
 }
 
